@@ -654,12 +654,16 @@ impl<RW: QueueRW<T>, T> FutInnerRecv<RW, T> {
     /// Identical to InnerRecv::try_recv()
     #[inline(always)]
     pub fn try_recv(&self) -> Result<T, TryRecvError> {
-        self.reader.try_recv()
+        let rval = self.reader.try_recv();
+        self.prod_wait.notify_all();
+        rval
     }
 
     #[inline(always)]
     pub fn recv(&self) -> Result<T, RecvError> {
-        self.reader.recv()
+        let rval = self.reader.recv();
+        self.prod_wait.notify_all();
+        rval
     }
 
     /// Creates a new stream and returns a FutInnerRecv on that stream
